@@ -107,7 +107,7 @@ def envAfter {σ : Type} (r : σ × Out) : EState σ × Out :=
   | .raise e => (.done r.1, .raise e)
 
 /-- what `close()` makes of the outcome of throwing GeneratorExit (gen_close) -/
-def envClosed {σ : Type} (r : EState σ × Out) : EState σ × Out :=
+def envClosed {α : Type} (r : α × Out) : α × Out :=
   match r with
   | (st', .yield _) => (st', .raise (.runtime rtIgnoredGenExit))
   | (st', .ret _) => (st', .ret 0)
